@@ -157,7 +157,7 @@ SWEEP_MODULES = ['buffer', 'burst', 'convert_to_block', 'dejitter', 'delay', 'di
                  'rtp_mpeg4']
 SWEEP_MODULES2 = ['crop', 'separate_fields', 'row_join', 'rtp_pcm_pack', 'rtp_pcm_unpack', 'sine_wave_source', 'audio_blank', 'audio_copy',
                   'block_to_sound', 'video_blank', 'row_split', 'void_source', 'blank_source']
-SWEEP_FILTERS = ['filter_blend', 'audio_max', 'audio_bar', 'audio_graph', 'zoneplate', 'zoneplate_source']
+SWEEP_FILTERS = ['filter_blend', 'audio_max', 'audio_bar', 'audio_graph', 'zoneplate', 'zoneplate_source', 'filter_format']
 SWEEP_TS = ['ts_align', 'ts_metadata_generator', 'ts_pcr_interpolator', 'ts_pid_filter', 'ts_tstd', 'ts_sync', 'ts_check']
 ENGINES['esweep'] = {
     'src': ['harness/esweep.c', 'shim/simd_stubs.c'],
@@ -299,7 +299,7 @@ PIPE_RULE = ('one case = (pipeline, history, choices): a chain of 1-4 pipes draw
 PIPE_ASSUME = ['one simulated thread; nondeterminism = order of ready pumps, allocator failures, and the instants chosen by the plan',
                'the reference model of upipe_helper_output (drop without flow def / output, negotiate before sending, renegotiate after a change, invalid after a rejection) is the specification the real pipes are compared with',
                'once an injected allocation failure fired in a run, only the model-free oracles stay armed (order and exactly-once at sinks, flow def before data, ready/dead ordering, nothing left allocated)',
-               'reference models exist for the 12 pipe types of the E-pipe catalogue; the sweep engine (esweep) adds 55 more pipe types (29 block pass-through / buffering / packetising types, 19 picture and sound filters, sources and bins, 5 transport stream pipes, v210enc and hls_buffer fed complete flow definitions and real picture / sound buffers) under model-free oracles: lifecycle (C01, C04), order / same payload / immediate delivery where the pipe type promises them, completeness after a drain (sinks that block the pump they are fed from and let go again, loop run dry, clock far ahead) and release of the blocked source pump for the 16 types documented never to drop (C05), option read-back plus a twin execution of the same history without its getters and without the setters the pipe rejected, whose outputs and events must be identical (C20)']
+               'reference models exist for the 12 pipe types of the E-pipe catalogue; the sweep engine (esweep) adds 56 more pipe types (29 block pass-through / buffering / packetising types, 20 picture and sound filters, sources and bins (filter_format among them, with the inner chains it builds without swscale), 5 transport stream pipes, v210enc and hls_buffer fed complete flow definitions and real picture / sound buffers) under model-free oracles: lifecycle (C01, C04), order / same payload / immediate delivery where the pipe type promises them, completeness after a drain (sinks that block the pump they are fed from and let go again, loop run dry, clock far ahead) and release of the blocked source pump for the 16 types documented never to drop (C05), option read-back plus a twin execution of the same history without its getters and without the setters the pipe rejected, whose outputs and events must be identical (C20)']
 for _p in ('C01', 'C04', 'C05', 'C20'):
     PROPS[_p] = {'engine': 'epipe', 'quick_time': 30, 'thorough_time': 600, 'rule': PIPE_RULE, 'assumptions': list(PIPE_ASSUME)}
 PROPS['C12'] = {'engine': 'epipe', 'engines': ['epipe', 'ethread', 'esweep'], 'quick_time': 30, 'thorough_time': 600,
@@ -438,7 +438,7 @@ for _p in ('C01', 'C04', 'C05', 'C20'):
 
 PROPS['C12'].update({
     'technique': 'deterministic simulation with fault injection: seeded register / unregister / set_output / provide / release histories over chains of real pipes; routing model evaluated after every operation (each registered request lodged exactly once at the sink the chain leads to), answers traced back through the proxies to the original callback; minimised replay files',
-    'level_note': 'sampling, not enumeration; exact routing model in-thread (12 pipe types), worker pipes across queues (ethread), bounds over 55 more pipe types (esweep); trusted base = sim/*, harness/epipe.c, harness/epipe_req.c, the request parts of harness/ethread.c and harness/esweep.c',
+    'level_note': 'sampling, not enumeration; exact routing model in-thread (12 pipe types), worker pipes across queues (ethread), bounds over 56 more pipe types (esweep); trusted base = sim/*, harness/epipe.c, harness/epipe_req.c, the request parts of harness/ethread.c and harness/esweep.c',
     'design_ref': 'DESIGN.md section 5, C12'})
 
 PROPS['C14'].update({
